@@ -111,6 +111,59 @@ theorem C19_no_spurious {h : List (Ev α ε)} {s : State α ε} (hr : run init h
   rw [hn] at g
   exact g
 
+/-- **The result does not depend on how long the call waited.** The stub's wait for the reply
+    is not bounded by any time-out (`context.Background()`), and the model has no step by which a
+    pending call could end other than `ret` with the callback's own result: whatever happens
+    between the plugin's call and its return — `mid` is ANY history, however long: other
+    plugins' updates queued ahead, long runtime requests holding the mutex — the callback ran
+    exactly once for it, with exactly the list sent, and the value returned is that result. -/
+theorem C19_result_independent_of_wait {pre mid : List (Ev α ε)} {u : Uid} {p : Pid}
+    {update : List α} {out : List α × Option (StubErr ε)} {s : State α ε}
+    (hr : run init (pre ++ [.call u p update] ++ mid ++ [.ret u out]) = some s) :
+    ∃ r, s.fnRuns u = [(update, r)] ∧ s.rets u = [out] ∧ out = expected r := by
+  rw [List.append_assoc, List.append_assoc, run_append] at hr
+  cases h0 : run init pre with
+  | none => simp [h0] at hr
+  | some s0 =>
+    simp only [h0, Option.bind_some, List.cons_append, run] at hr
+    split at hr
+    · rename_i s1 hs1
+      -- the call is registered with the list sent
+      have hc1 : s1.call u = some ⟨p, update, .called⟩ := by
+        simp only [step?] at hs1
+        split at hs1
+        · cases hs1
+        · injection hs1 with hs1; subst hs1; simp
+      cases h2 : run s1 mid with
+      | none => rw [List.nil_append, run_append mid [.ret u out], h2] at hr; cases hr
+      | some s2 =>
+        rw [List.nil_append, run_append mid [.ret u out], h2] at hr
+        simp only [Option.bind_some, run] at hr
+        obtain ⟨c2, hc2, hu2, _⟩ := call_kept_run h2 hc1
+        have hr2 : run init (pre ++ ([.call u p update] ++ mid)) = some s2 := by
+          simp [run_append, h0, run, hs1, h2]
+        have g2 := (goodM_run hr2).calls u
+        split at hr
+        · rename_i s3 hs3
+          injection hr with hr; subst hr
+          simp only [step?] at hs3
+          split at hs3
+          · rename_i p' upd' r hc
+            split at hs3
+            · rename_i ho
+              injection hs3 with hs3; subst hs3
+              rw [hc] at hc2; injection hc2 with hc2; subst hc2
+              simp only at hu2
+              rw [hc] at g2
+              simp only [callOk] at g2
+              refine ⟨r, ?_, ?_, ho⟩
+              · simp only []; rw [g2.1, hu2]
+              · simp [g2.2]
+            · cases hs3
+          · cases hs3
+        · cases hr
+    · cases hr
+
 /-- **Exclusive (state form).** In every reachable state at most one of {a runtime request being
     processed, an `UpdateFn` invocation} is inside its section. `inside` is maintained by the
     begin/end events independently of the mutex word. -/
